@@ -19,8 +19,8 @@ RULE = ('tuples of 1-5 page layouts x 1-6 lines with identical ids, per-engine c
 ASSUMPTIONS = ['every transcription is over its own engine\'s charset', 'the mean character confidence is the repository\'s get_line_confidence (itself under the C16 contracts), 0.5 per character when alignment raises ValueError, -10 for empty/None',
                'confidence equality within 1e-12']
 N = {'quick': 1500, 'thorough': 60000}
-CLASSES = ['mixed', 'mixed', 'ties', 'self_merge', 'all_empty', 'different_charsets', 'single_engine', 'unalignable', 'per_line_charsets', 'merge_of_merges', 'near_ties', 'raw_scores', 'repeated_ids']
-REQUIRED = ['near_ties_checked', 'lines_with_ids_repeated_per_region', 'raw_score_lines', 'main_runs', 'main_tie_lines', 'per_line_charset_merges', 'merges', 'lines_checked', 'winner_not_first', 'ties_checked', 'self_merges', 'no_positive_confidence_lines']
+CLASSES = ['mixed', 'mixed', 'ties', 'self_merge', 'all_empty', 'different_charsets', 'single_engine', 'unalignable', 'per_line_charsets', 'merge_of_merges', 'near_ties', 'raw_scores', 'repeated_ids', 'same_text']
+REQUIRED = ['winner_not_first_with_the_same_text', 'near_ties_checked', 'lines_with_ids_repeated_per_region', 'raw_score_lines', 'main_runs', 'main_tie_lines', 'per_line_charset_merges', 'merges', 'lines_checked', 'winner_not_first', 'ties_checked', 'self_merges', 'no_positive_confidence_lines']
 
 
 def setup(ctx):
@@ -67,6 +67,13 @@ def gen(rng, i, ctx):
         engines.append({'chars': cs, 'lines': lines})
     if cls == 'ties' and ne >= 2:
         engines[int(rng.integers(1, ne))] = copy.deepcopy(engines[0])
+    if cls == 'same_text':
+        # the engines agree on the text of most lines (the usual situation) but not on their posteriors or character tables
+        for l in range(nl):
+            t = ''.join(BASE[int(k)] for k in rng.integers(0, len(BASE), size=int(rng.integers(1, 9))))
+            for e in range(ne):
+                if e == 0 or rng.random() < 0.8:
+                    engines[e]['lines'][l]['text'] = t
     if cls == 'near_ties':
         # a later engine whose posteriors are the first engine's raised by a hair: strictly more confident, by less than 1e-9 relative
         for ld in engines[0]['lines']:
@@ -189,6 +196,8 @@ def run_merge(case, order, mon, ctx):
             mon.count('lines_with_ids_repeated_per_region')
         if bi is not None and bi > 0:
             mon.count('winner_not_first')
+            if snap[bi][li]['t'] == snap[0][li]['t']:
+                mon.count('winner_not_first_with_the_same_text')
         if bi is None:
             mon.count('no_positive_confidence_lines')
         if l.transcription != src['t']:
